@@ -64,6 +64,13 @@ func foldTo(rv reflect.Value, vis structform.Visitor) Outcome {
 		if !usesRegT(rv.Type(), 0, map[reflect.Type]bool{}) && !withSharedOpts(rv.Type()) {
 			return gotype.Fold(rv.Interface(), vis)
 		}
+		if len(rv.Type().String())%3 != 0 {
+			// the one-shot form with options — after ANOTHER one-shot call without
+			// options has folded the same value (calls are independent: what one
+			// compiled for its configuration must not reach the next)
+			_ = gotype.Fold(rv.Interface(), discardVisitor{})
+			return gotype.Fold(rv.Interface(), vis, foldOpts()...)
+		}
 		it, err := gotype.NewIterator(vis, foldOpts()...)
 		if err != nil {
 			return err
@@ -388,6 +395,49 @@ func enumFoldPoolShapes(wrap func(g *GoCase) any) func(emit func(c any) bool) {
 			}
 		}
 	}
+}
+
+// enumReentrantMaps: one compiled map folder used re-entrantly — a map type
+// M = map[string]E whose struct element holds, through an interface, further
+// non-empty maps of the very same type M, three levels deep and with several
+// keys per level (whatever a folder keeps per TYPE while it iterates must
+// survive folding the same type inside an element); plain, as a field and inlined.
+func enumReentrantMaps(wrap func(g *GoCase) any, emit func(c any) bool) bool {
+	ifc := gomodel.TypeDesc{Kind: "iface"}
+	for _, elemIsSlice := range []bool{false, true} {
+		e := gomodel.TypeDesc{Kind: "struct", Fields: []gomodel.FieldDesc{{Name: "Name", Type: gomodel.TypeDesc{Kind: "string"}}, {Name: "I", Type: ifc}}}
+		et := e
+		if elemIsSlice {
+			et = gomodel.TypeDesc{Kind: "slice", Elem: &e}
+		}
+		m := gomodel.TypeDesc{Kind: "map", Elem: &et}
+		elem := func(v gomodel.GoVal) gomodel.GoVal {
+			if elemIsSlice {
+				return gomodel.GoVal{Elems: []gomodel.GoVal{v, v}}
+			}
+			return v
+		}
+		leaf := func(name string) gomodel.GoVal {
+			return elem(gomodel.GoVal{Elems: []gomodel.GoVal{{S: []byte(name)}, {Nil: true}}})
+		}
+		node := func(name string, mv gomodel.GoVal) gomodel.GoVal {
+			return elem(gomodel.GoVal{Elems: []gomodel.GoVal{{S: []byte(name)}, {Ptr: &mv, Dyn: &m}}})
+		}
+		lvl3 := gomodel.GoVal{Keys: []string{"c", "c2"}, Elems: []gomodel.GoVal{leaf("z"), leaf("z2")}}
+		lvl2 := gomodel.GoVal{Keys: []string{"b", "b2"}, Elems: []gomodel.GoVal{node("y", lvl3), node("y2", lvl3)}}
+		lvl1 := gomodel.GoVal{Keys: []string{"a", "a2", "a3"}, Elems: []gomodel.GoVal{node("x", lvl2), leaf("w"), node("v", lvl2)}}
+		for _, c := range []GoCase{
+			{Type: m, Val: lvl1},
+			{Type: gomodel.TypeDesc{Kind: "struct", Fields: []gomodel.FieldDesc{{Name: "A", Type: gomodel.TypeDesc{Kind: "int"}}, {Name: "M", Type: m}}}, Val: gomodel.GoVal{Elems: []gomodel.GoVal{{I: 1}, lvl1}}},
+			{Type: gomodel.TypeDesc{Kind: "struct", Fields: []gomodel.FieldDesc{{Name: "A", Type: gomodel.TypeDesc{Kind: "int"}}, {Name: "M", Tag: `struct:",inline"`, Type: m}}}, Val: gomodel.GoVal{Elems: []gomodel.GoVal{{I: 1}, lvl1}}},
+		} {
+			c := c
+			if !emit(wrap(&c)) {
+				return false
+			}
+		}
+	}
+	return true
 }
 
 // drawGoHistory draws n cases for one instance; later types share components
